@@ -174,6 +174,71 @@ def run(prog: Program, rep: Report, tier: str):
         rep.decide(ok, "G8.cache-per-instance", C, f"container:self.{cache_attr}", "created in __init__ from a fresh call",
                    f"self.{cache_attr} is a class attribute / comes from a constructor argument or default: entries of one "
                    f"cached dataset can be served for another", clause="C19.4", nontrivial=False)
+    # ---- other readers of the wrapped dataset (batched access, prefetching ...) -------------------------------------------
+    rep.rule("G8.other-loads", "a method of a cache class other than _cached_getitem that reads the wrapped dataset "
+             "(self.dataset[k]) does so only where k is tested to be missing.  Tested against the cache itself: fine when the "
+             "loaded value is stored under k.  Tested against a local snapshot of the cache's keys taken before a loop over "
+             "several indices: the snapshot has to learn k (add / update) on every path from the load to the next index, "
+             "otherwise a second occurrence of k in the same batch is loaded again")
+    for C in [base] + list(prog.subclasses(base, include_self=False)):
+        for name, f in C.methods.items():
+            if name in ("_cached_getitem", "__init__"):
+                continue
+            fa2 = fa_of(prog, f)
+            c2 = fa2.cfg
+            for n in sorted(c2.nodes):
+                for x in c2.walk_node(n):
+                    if not (isinstance(x, ast.Subscript) and isinstance(x.ctx, ast.Load)
+                            and fa2.sym.term(x.value, n) == ("self", "dataset")):
+                        continue
+                    rep.analysed_add("functions", f"{f.module.relpath}:{f.qualname}")
+                    key = fa2.sym.term(x.slice, n)
+                    conds = []
+                    for c_ in fa2.conds_at(n):
+                        conds += list(c_[1]) if c_[0] == "and" else [c_]
+                    tested = [c_[1][2] for c_ in conds if c_[0] == "not" and c_[1][0] == "in" and c_[1][1] == key]
+                    # a local that the symbolic layer expanded to its (never mutated) definition is still a local snapshot
+                    for e_, pol_, c_, tn_ in fa2.cond_parts_at(n):
+                        if isinstance(e_, ast.Compare) and len(e_.ops) == 1 and isinstance(e_.ops[0], (ast.In, ast.NotIn)) and \
+                                isinstance(e_.comparators[0], ast.Name) and fa2.sym.term(e_.left, tn_) == key and \
+                                (isinstance(e_.ops[0], ast.NotIn) == pol_):
+                            nm_ = e_.comparators[0].id
+                            defs_ = c2.reaching().get(tn_, {}).get(nm_, set())
+                            t_ = ("var", nm_, frozenset(defs_))
+                            tested = [t_] + [x_ for x_ in tested if x_[0] == "self"]
+                    ok, why = None, (f"{f.qualname} reads the wrapped dataset with key {show(key)[:40]} outside _cached_getitem; "
+                                     f"no membership test of that key is recognised: not decided")
+                    for cont in tested:
+                        if cont[0] == "self":
+                            ok, why = True, "read under 'k not in <cache>'"
+                            break
+                        if cont[0] == "var":
+                            snap = cont[1]
+                            # the loop over the indices that contains the load
+                            loops = [m for m, nd in c2.nodes.items() if nd.kind == "next" and n in c2.nodes_inside(nd.owner.body)]
+                            outside = [d for d in cont[2] if not any(d in c2.nodes_inside(c2.nodes[m].owner.body) for m in loops)]
+                            if not loops or not outside:
+                                ok, why = True, f"read under 'k not in {snap}' (per-index test)"
+                                break
+                            learns = set()
+                            for m, cl in fa2.calls():
+                                if isinstance(cl.func, ast.Attribute) and cl.func.attr in ("add", "update", "append", "extend") \
+                                        and isinstance(cl.func.value, ast.Name) and cl.func.value.id == snap:
+                                    learns.add(m)
+                            for m, var, val in fa2.stores():
+                                if var == snap and m in c2.nodes_inside(c2.nodes[loops[-1]].owner.body):
+                                    learns.add(m)
+                            inner = max(loops, key=lambda m_: len([1 for o_ in loops if m_ in c2.nodes_inside(c2.nodes[o_].owner.body)]))
+                            stale = c2.reachable(n, inner, avoid=learns)
+                            ok = not stale
+                            why = (f"'{snap}' (the keys of the cache, taken once before the loop) learns every key that is loaded") if ok \
+                                else (f"{f.qualname}: the miss test at line {x.lineno} reads '{snap}', a snapshot of the cache's keys "
+                                      f"taken before the loop over the requested indices, and the snapshot does not learn the key "
+                                      f"that was just loaded: an index that occurs twice in one request is loaded twice")
+                            break
+                    rep.decide(ok, "G8.other-loads", f, f"load:{' '.join(ast.unparse(x).split())[:40]}", why, why, line=x.lineno,
+                               clause="C19.1")
+
     # ---- CachedDataset.__getitem__ -----------------------------------------------------------------------------------
     gi = base.methods.get("__getitem__")
     rep.require(gi is not None, "anchor-missing: CachedDataset.__getitem__")
